@@ -50,7 +50,10 @@ def _run_case(docs, world, style=('flow', 0, 0), timeout=5, extra=None):
                      'safe': bool(n.ayns.safe), 'v': (sc_json(n.ayns.native_value) if type(n).__name__.startswith('ConfigScalar') else None),
                      'text': str(n) if dyn_kind(n) in ('xref', 'eval', 'fstr', 'import') else None}
                     for p, n in tree_nodes(root)]
+                pre = dump_node(root) if (extra and root is not None) else None      # the merged tree BEFORE anything is evaluated
                 cfg = Config(root, eval_ctx=EvalContext(eval_symbols=w.syms))
+                if pre is not None:
+                    obs['pre_dump'] = pre
                 obs['cfg'] = {'ok': renumber(conv_val(cfg, w, {})), 'log': list(w.log)}
                 if extra:
                     extra(obs, root, cfg, w)
